@@ -6,10 +6,11 @@ PAT="${1:-}"
 for f in mutants/*.diff seeded/*/patch.diff; do
   [ -f "$f" ] || continue
   case "$f" in *"$PAT"*) ;; *) continue;; esac
-  if [[ "$f" == seeded/* ]]; then ID=$(python3 -c "import json,sys;print(json.load(open('$(dirname $f)/meta.json'))['property'])"); else ID=$(basename "$f" | cut -d- -f1); fi
-  out=$(tools/mutcheck.sh "$f" "$ID" quick ${MUT_ARGS:-} 2>&1); rc=$?
+  if [[ "$f" == seeded/* ]]; then IDS=$(python3 -c "import json,sys;print(' '.join(k for k,v in json.load(open('$(dirname $f)/meta.json'))['checks'].items() if v=='caught'))"); else IDS=$(basename "$f" | cut -d- -f1); fi
+  rc=0; out=""
+  for ID in $IDS; do out=$(tools/mutcheck.sh "$f" "$ID" quick ${MUT_ARGS:-} 2>&1); rc=$?; [ $rc -eq 1 ] && break; done
   n=$(echo "$out" | grep -c "^VIOLATION")
   inv=$(echo "$out" | grep "^violation:" | head -1 | cut -c1-160)
-  if [ $rc -eq 1 ]; then echo "killed    $f ($n) $inv"; elif [ $rc -eq 0 ]; then echo "SURVIVED  $f"; else echo "INFRA($rc) $f: $(echo "$out" | tail -3)"; fi
+  if [ $rc -eq 1 ]; then echo "killed    $f [$ID] ($n) $inv"; elif [ $rc -eq 0 ]; then echo "SURVIVED  $f"; else echo "INFRA($rc) $f: $(echo "$out" | tail -3)"; fi
 done
 rm -f replays/*.json
